@@ -27,7 +27,10 @@ RULE = ("scenario = (hops 1..3, phase in ready / mid-transfer / building, teardo
         "pairs for 2-hop scenarios), Hypothesis-drawn larger fault sets; plus join-limit and "
         "relay_early sub-checks with drawn limits; race = the first data cell reaches the exit while a teardown's linger "
         "runs out and opening an outside socket takes virtual time (latencies x gap grid + drawn); clause R3: with no "
-        "fault at all the destroy message removes every entry of X within remove_tunnel_delay + 1 s. Non-trivial = at least one control message (create/created/extend/"
+        "fault at all the destroy message removes every entry of X within remove_tunnel_delay + 1 s; maintained = a node that "
+        "keeps N circuits alive through build_tunnels (start offset in its periodic cycle x application teardown time x "
+        "which attempt never gets an answer, grid + drawn), serves as somebody's exit, then everybody else vanishes: all "
+        "entries it held at that moment must be gone at the bound. Non-trivial = at least one control message (create/created/extend/"
         "extended/destroy) of X was lost or delayed so that a timer has to reclaim; distinct = (scenario, fault set).")
 ASSUMPTIONS = [
     "deadline D = circuit_timeout + unstable_timeout + max_time_inactive + sweep interval + ping interval + "
@@ -296,6 +299,8 @@ def run_case(ctx: Ctx | None, case: dict) -> dict:
         return run_join_limit(ctx, case)
     if case.get("sub") == "relay_early":
         return run_relay_early(ctx, case)
+    if case.get("sub") == "maintained":
+        return run_maintained(ctx, case)
     s = Scenario(case)
     try:
         vloop.run(s.main)
@@ -338,6 +343,107 @@ def run_join_limit(ctx: Ctx | None, case: dict) -> dict:
     vloop.run(main)
     if ctx is not None:
         ctx.case(("join_limit", k, case["seed"]), True, cls="join_limit")
+    return {}
+
+
+def run_maintained(ctx: Ctx | None, case: dict) -> dict:
+    """
+    Node O keeps ``want`` circuits of ``hops`` hops alive through its periodic builder (build_tunnels), serves as exit of
+    somebody else's 1-hop circuit, loses every answer to one of its creates, and has one circuit torn down by the
+    application ``t1`` seconds in. Then every other node vanishes without a word. Whatever O held at that moment belongs
+    to no working circuit any more: the limits must have removed all of it within the bound (entries of attempts O
+    starts afterwards are not judged).
+    """
+    hops, want, lost, t1 = case["hops"], case["want"], case["lost"], case["t1"]
+    info = {"nt": False}
+
+    async def main(loop):
+        w = World(loop, hops + 3)
+        try:
+            O, P = w.nodes[0], w.nodes[-1]
+            st = O.overlay.settings
+            D = deadline(st)
+            opeer = [p for p in P.overlay.candidates if p.public_key.key_to_bin() == O.key.pub().key_to_bin()][0]
+            for nd in w.nodes[1:-1]:
+                for peer in list(nd.overlay.candidates):       # P is nobody's relay or exit
+                    if peer.public_key.key_to_bin() == P.key.pub().key_to_bin():
+                        nd.overlay.candidates.pop(peer)
+            for peer in list(O.overlay.candidates):
+                if peer.public_key.key_to_bin() == P.key.pub().key_to_bin():
+                    O.overlay.candidates.pop(peer)
+            pc = await w.build_circuit(P, 1, seed=case["seed"], required_exit=opeer)
+            if pc is None:
+                raise Violation("U", "build", "1-hop circuit through O not built", case)
+            P.overlay.send_data(pc.hop.address, pc.circuit_id, ("5.5.5.5", 5555), ("0.0.0.0", 0), b"d1:pe")
+            seen: list = []
+
+            def hook(fl):
+                cell = parse_cell(fl.data, w.prefix)
+                if cell is not None and cell["plaintext"] and cell["message"][:1] == b"\x03" and fl.dst == O.address:
+                    if cell["circuit_id"] not in seen:
+                        seen.append(cell["circuit_id"])
+                    if lost >= 0 and len(seen) > lost and cell["circuit_id"] == seen[lost]:
+                        return []
+                return None
+            w.net.on_send = hook
+            import random
+            random.seed(case["seed"])
+            st.max_circuits = want
+            await asyncio.sleep(case.get("delay", 0))      # where in O's periodic cycle the first attempts start
+            t0 = loop.time()
+            O.overlay.build_tunnels(hops)
+            gave_up = False
+            torn = False
+            t_v = t0 + case["vanish"]
+            while loop.time() < t_v:
+                await asyncio.sleep(0.5)
+                gave_up = gave_up or any(x.state == "CLOSING" and not x.hops for x in O.overlay.circuits.values())
+                if not torn and loop.time() - t0 >= t1:
+                    ready = [x for x in O.overlay.circuits.values() if x.state == "READY" and len(x.hops) == hops]
+                    if ready:
+                        O.overlay.remove_circuit(ready[0].circuit_id, "the application is done with it", destroy=True)
+                        torn = True
+            for nd in w.nodes[1:]:
+                nd.raw_endpoint.close()
+            t_v = loop.time()
+            held = [(name, cid) for tbl, name in ((O.overlay.circuits, "circuits"), (O.overlay.relay_from_to, "relays"),
+                                                  (O.overlay.exit_sockets, "exits")) for cid in tbl]
+            old_socks = [t for t in loop.transports if not t.closed]
+            while loop.time() < t_v + D:
+                await asyncio.sleep(10.0)
+            w.net.on_send = None
+            for tbl, name in ((O.overlay.circuits, "circuits"), (O.overlay.relay_from_to, "relays"),
+                              (O.overlay.exit_sockets, "exits")):
+                for cid, obj in tbl.items():
+                    if obj.creation_time < t_v:
+                        raise Violation("R1", f"orphan:{name}:maintained",
+                                        f"{D:.0f} s after every other node vanished, node O (which keeps {want} circuits of "
+                                        f"{hops} hops alive; created answers of one attempt lost; one circuit torn down by the "
+                                        f"application at t={t1}) still has the {name} entry {cid} it held at that moment "
+                                        f"(state {getattr(obj, 'state', '-')}, last activity "
+                                        f"{loop.time() - obj.last_activity:.0f} s ago)", case)
+            owned = {id(t) for sock in O.overlay.exit_sockets.values() for t in (sock.transport_ipv4, sock.transport_ipv6)}
+            for t in old_socks:
+                if not t.closed and id(t) not in owned and any(t in (s_.transport_ipv4, s_.transport_ipv6) for s_ in ()):
+                    pass
+            for t in old_socks:
+                if not t.closed and id(t) not in owned:
+                    own_nodes = [nd.idx for nd in w.nodes[1:] for sock in nd.overlay.exit_sockets.values()
+                                 if t in (sock.transport_ipv4, sock.transport_ipv6)]
+                    if not own_nodes:
+                        raise Violation("R1", "socket:maintained", f"an outside socket {t.local_addr} opened before the other "
+                                                                   f"nodes vanished is still open {D:.0f} s later although no "
+                                                                   f"exit entry owns it", case)
+            info["nt"] = bool(held) and (gave_up or torn)
+            info["cls"] = "maintained/%dhop/want%d/%s/%s" % (hops, want, "gave_up" if gave_up else "all_answered",
+                                                            "torn" if torn else "kept")
+        finally:
+            w.net.on_send = None
+            await w.close()
+    vloop.run(main)
+    if ctx is not None:
+        ctx.case(("maintained", hops, want, lost, t1, case["vanish"], case.get("delay", 0), case["seed"]), info["nt"], cls=info.get("cls", "maintained"),
+                 sample=case)
     return {}
 
 
@@ -425,6 +531,15 @@ def _enum_shard(ctx: Ctx, shard: int, nshards: int, which: int, pairs: bool) -> 
                 for ka in ("drop", "delay"):
                     for kb in ("drop", "dup"):
                         jobs.append({**s, "seed": 5, "faults": [[a, ka], [b, kb]]})
+    if which < 0 or which == 0:
+        # a node that maintains its circuits: where in its periodic cycle the attempts start x when the application tears one
+        # circuit down x which attempt never gets an answer
+        for hops_, want in ((2, 3),) if not pairs else ((2, 3), (2, 2), (3, 3), (1, 3)):
+            for delay in range(5):
+                for t1 in range(1, 27):
+                    for lost in (0, 2) if not pairs else (-1, 0, 1, 2):
+                        jobs.append({"sub": "maintained", "hops": hops_, "want": want, "lost": lost, "t1": t1, "vanish": 45,
+                                     "seed": 1, "delay": delay})
     for i, case in enumerate(jobs):
         if i % nshards != shard:
             continue
@@ -447,7 +562,10 @@ def _strategy():
     join = st.fixed_dictionaries({"sub": st.just("join_limit"), "limit": st.integers(1, 4), "seed": st.integers(0, 99)})
     early = st.fixed_dictionaries({"sub": st.just("relay_early"), "limit": st.integers(0, 8), "burst": st.integers(1, 20),
                                    "seed": st.integers(0, 99)})
-    return st.one_of(scen, scen, scen, join, early)
+    maintained = st.fixed_dictionaries({"sub": st.just("maintained"), "hops": st.integers(1, 3), "want": st.integers(1, 4),
+                                        "lost": st.integers(-1, 3), "t1": st.integers(0, 40), "vanish": st.integers(20, 70),
+                                        "seed": st.integers(0, 99), "delay": st.sampled_from([0, 0.5, 1, 2, 2.5, 3, 4, 4.9])})
+    return st.one_of(scen, scen, scen, join, early, maintained)
 
 
 def _random_shard(ctx: Ctx, shard: int, nshards: int, n: int) -> None:
